@@ -239,7 +239,10 @@ Proof.
   destruct (existsb (N.eqb f) uid_fields || existsb (N.eqb f) gid_fields) eqn:Eid.
   { unfold print_value in H. rewrite Eid in H.
     assert (f =? 11 = false /\ f =? 103 = false) as [E1 E2].
-    { unfold uid_fields, gid_fields in Eid. cbn [existsb] in Eid. lia. }
+    { assert (G: forallb (fun x => negb (x =? 11) && negb (x =? 103)) (uid_fields ++ gid_fields) = true) by (vm_compute; reflexivity).
+      rewrite forallb_forall in G. rewrite <- existsb_app in Eid. apply existsb_exists in Eid. destruct Eid as (x & Hx & Ex).
+      apply N.eqb_eq in Ex. subst x. specialize (G _ Hx). apply andb_prop in G. destruct G as [G1 G2].
+      apply negb_true_iff in G1, G2. auto. }
     rewrite E1, E2 in H. injection H as <-. apply parse_id_print; exact Hv. }
   destruct (f =? 103) eqn:E103. { apply N.eqb_eq in E103. subst f. eapply parse_exit_print; eauto. }
   destruct (f =? 12) eqn:E12. { apply N.eqb_eq in E12. subst f. eapply parse_msgtype_print; eauto. }
